@@ -273,6 +273,25 @@ var families = map[string]script{
 		fmt.Fprint(&b, classOf(q), classOf(st), classOf(s), classOf(s.GetCollator()), q.GetSize(), st.GetSize())
 		return b.String()
 	},
+	// formatters with a wider nesting limit than the default, each used by one goroutine for a document of its own
+	// that nests deeper than the default limit allows
+	"format-deep": func(id int) string {
+		depth := 10 + id%7
+		var doc any = int64(id)
+		for level := 0; level < depth; level++ {
+			doc = col.List[any](lib.Notation()).MakeFromArray([]any{int64(level), doc})
+		}
+		text := cdc.Formatter().MakeWithMaximum(24).FormatValue(doc)
+		lines := strings.Split(text, "\n")
+		// the innermost line is indented by four characters per level
+		deepest := 0
+		for _, l := range lines {
+			if n := len(l) - len(strings.TrimLeft(l, " ")); n > deepest {
+				deepest = n
+			}
+		}
+		return fmt.Sprint(len(lines), deepest, len(text), strings.Count(text, "](List)"))
+	},
 	"set-algebra-composite": func(id int) string {
 		S := col.Set[[]int](lib.Notation())
 		a, b := S.MakeFromArray(slicesFor(id, 7)), S.MakeFromArray(slicesFor(id+1, 7))
@@ -305,7 +324,7 @@ var familyNames = func() []string {
 
 // pairs of families that are candidates for hidden shared state
 var sharingCandidates = map[string]bool{"format-string": true, "format-notation": true, "sort-composite": true, "sort-int": true, "parse": true, "search-composite": true,
-	"set-algebra-composite": true, "compare-rank": true, "format-after-panic": true, "parse-after-reject": true, "rank-after-cycle": true, "shuffle": true, "empties": true, "classes": true}
+	"set-algebra-composite": true, "compare-rank": true, "format-after-panic": true, "parse-after-reject": true, "rank-after-cycle": true, "shuffle": true, "empties": true, "classes": true, "format-deep": true}
 
 type indepCase struct {
 	Goroutines []string `json:"goroutines"` // family per goroutine
@@ -767,4 +786,11 @@ func TestC19(t *testing.T) {
 	core.Stress(r, core.Check[registryCase]{Name: "class-registries", Gen: func(s core.Source) registryCase {
 		return registryCase{Type: s.Choose(8, "type"), Goroutines: 2 + s.Choose(15, "goroutines")}
 	}, Exec: execRegistry}, r.N(8, 8))
+	coldKinds := []string{"format-deep", "format", "parse", "rank", "collections"}
+	nextCold := 0
+	core.Stress(r, core.Check[coldCase]{Name: "cold-start", Gen: func(s core.Source) coldCase {
+		c := coldCase{Kind: coldKinds[nextCold%len(coldKinds)], Children: r.N(6, 30)}
+		nextCold++
+		return c
+	}, Exec: execCold, HangLimit: 1800 * time.Second}, len(coldKinds))
 }
